@@ -243,6 +243,7 @@ func checkC09(c *Ctx) {
 		shapes = append(shapes, "rand/"+featureKey(g.features))
 	}
 	c09Consistency(c)
+	c09Messages(c)
 	var inputs []map[string]Val
 	c.runRefCases("exc", progs, inputs, shapes, nil, func(i int, src string, ref zr.Result, resp *Resp) {
 		quiescent(c, "exc", shapes[i], src, resp)
@@ -274,6 +275,60 @@ func quiescent(c *Ctx, kind, shape, src string, resp *Resp) {
 // or an error that ends the program - it must be the same thing at every distance: with a handler
 // of 异常 on the body that fails AND one on its caller, either the nearest one runs or none does.
 // The caller's handler running while the nearest one was passed over fits no reading.
+// c09Messages: an exception nobody handles ends the program with its message, i.e. with what a
+// handler would have read as 其内容 - whatever kind of value the thrower stored there
+// (hand-written programs; for a text or an integer the message is written down, for other values
+// it must at least not be empty)
+func c09Messages(c *Ctx) {
+	type mc struct{ name, content, want string }
+	cases := []mc{
+		{"text", "“出错了”", "出错了"}, {"empty-text", "“”", ""}, {"integer", "404", "404"}, {"negative", "-7", "-7"},
+		{"bool", "真", "?"}, {"list", "【1，2】", "?"}, {"dict", "【“码” = 5】", "?"}, {"decimal", "2.5", "?"},
+	}
+	wrap := []string{"direct", "via-method", "via-two-methods", "from-handler"}
+	reqs := []Req{}
+	type idx struct{ k, w int }
+	ids := []idx{}
+	srcs := []string{}
+	for k, m := range cases {
+		for w := range wrap {
+			src := "定义错误码异常：\n\t其内容 = 0\n\n如何新建错误码异常？\n\t输入码\n\t其内容 = 码\n\n"
+			switch wrap[w] {
+			case "direct":
+				src += "（显示：“前”）\n抛出错误码异常：" + m.content + "！\n"
+			case "via-method":
+				src += "如何查？\n\t抛出错误码异常：" + m.content + "！\n\n（查）\n"
+			case "via-two-methods":
+				src += "如何查？\n\t抛出错误码异常：" + m.content + "！\n\n如何外？\n\t（查）\n\t输出 1\n\n\t拦截异常：\n\t\t输出 2\n\n（外）\n"
+			case "from-handler":
+				src += "令甲 = 1 / 0\n\n拦截异常：\n\t抛出错误码异常：" + m.content + "！\n"
+			}
+			reqs = append(reqs, execReq(src))
+			srcs = append(srcs, src)
+			ids = append(ids, idx{k, w})
+		}
+	}
+	c.runBatches(reqs, 16, func(i int, req *Req, resp *Resp) {
+		c.Eval()
+		m, w := cases[ids[i].k], wrap[ids[i].w]
+		c.Nontrivial("message|" + m.name + "|" + w + "|" + resp.Kind)
+		why := ""
+		switch {
+		case resp.Kind != "error" || resp.Err == nil:
+			why = "the program does not end with the exception: " + resp.Kind
+		case m.want == "?" && strings.TrimSpace(resp.Err.Msg) == "":
+			why = "the program ends with an empty message"
+		case m.want != "?" && resp.Err.Msg != m.want:
+			why = fmt.Sprintf("the program ends with the message %q, expected %q", resp.Err.Msg, m.want)
+		case !strings.HasSuffix(strings.TrimRight(resp.Err.Text, "\n"), "："+resp.Err.Msg):
+			why = "the report does not end with the message"
+		}
+		if why != "" {
+			c.Violation("message:"+m.name+":"+w, fmt.Sprintf("uncaught custom exception with 内容 = %s (%s): %s\nreport:\n%s\nprogram:\n%s", m.content, w, why, resp.Err.Text, srcs[i]), map[string]interface{}{"req": req})
+		}
+	})
+}
+
 func c09Consistency(c *Ctx) {
 	faults := []string{
 		"“{#.2}” % 【“abc”】", "“{#}” % 【真】", "“{#+}” % 【空】", "“{#.1%}” % 【【1】】", "“{” % 【】", "“}” % 【】", "“{}{}” % 【1】", "“{}” % 【1，2】", "“{x}” % 【1】", "“{#.}” % 【1】", "“{#.99999999999999999999}” % 【1】",
